@@ -157,7 +157,9 @@ class FactoryRun:
     def handler(self, exc: Exception) -> bool:
         e = next((n for n, c in enumerate(EXN) if type(exc) is c), 99)
         self.log("handlerCalled", getattr(exc, "h", -1), e)
-        return bool(self.case["handler"])
+        # "a truthy value": not only True; anything else - None (a handler that only logs), 0, an empty string … - is not
+        verdicts: list[Any] = [True, 1, "handled", [0]] if self.case["handler"] else [False, None, 0, "", [], 0.0]
+        return verdicts[getattr(exc, "h", 0) % len(verdicts)]      # type: ignore[no-any-return]
 
     async def waiter(self, h: int) -> None:
         await self.handles[h].wait_finished()
